@@ -339,6 +339,8 @@ pub struct Simk {
     pub owners: HashMap<u64, u64>,
     /// Threads blocked in enter (scheduler mode) are woken through this.
     pub blocked_waiters: u64,
+    /// A violation made further kernel activity meaningless.
+    pub broken: bool,
 }
 
 static SIMK: Mutex<Option<Simk>> = Mutex::new(None);
@@ -428,6 +430,7 @@ impl Simk {
             next_direct_id: 1,
             owners: HashMap::new(),
             blocked_waiters: 0,
+            broken: false,
         }
     }
 
@@ -884,7 +887,7 @@ unsafe fn k_register(fd: c_int, opcode: c_uint, arg: *const c_void, nr_args: c_u
             return -1;
         }
         let mut raw = [0u8; 64];
-        unsafe { std::ptr::copy_nonoverlapping(a, raw.as_mut_ptr(), 64) };
+        unsafe { std::ptr::copy_nonoverlapping(a, raw.as_mut_ptr(), if cfg!(miri) { 56 } else { 64 }) };
         let sqe = Sqe(raw);
         if sqe.opcode() != OP_MSG_RING {
             set_errno(libc::EINVAL);
